@@ -124,8 +124,8 @@ Lemma tw_char5 : forall tk l nodes txt fr w a b n,
 Proof.
   intros tk l nodes txt fr w a b n Ha Hb Hh. unfold RS.
   destruct (char_word_class w a b Ha Hb) as (Hc & Hp & Hs & He & Ht & Hq & Hbs).
-  unfold translate_word. proj_red. unfold handle_double. proj_red. rewrite Hc, Hp, Hs, He, Ht, Hq, Hbs.
-  proj_red. rewrite !andb_false_r. proj_red. rewrite Ha, Hb. unfold add_to_buf. proj_red.
+  unfold translate_word. proj_red. unfold handle_double. proj_red. rewrite Hc, Hp, Hs, He, Ht, Hq.
+  proj_red. rewrite ?andb_false_r. proj_red. rewrite Ha, Hb. unfold add_to_buf. proj_red.
   rewrite (add5 tk l nodes txt (a ++ b) Hh). proj_red. reflexivity.
 Qed.
 
@@ -160,10 +160,10 @@ Qed.
 
 Lemma dt_code5 : forall w k tk l nodes fr, kind_ok w k -> d = true -> doubled_type (RS tk l nodes fr) w = true.
 Proof.
-  intros w k tk l nodes fr Hk Hd. unfold doubled_type, RS. proj_red. rewrite Hd.
+  intros w k tk l nodes fr Hk _. unfold doubled_type.
   destruct k as [ch|ch|]; cbn [kind_ok] in Hk.
   - rewrite Hk. rewrite orb_true_r. reflexivity.
-  - rewrite Hk. cbn [andb orb]. apply orb_true_r.
+  - rewrite Hk. apply orb_true_r.
   - subst w. vm_compute. reflexivity.
 Qed.
 
@@ -259,12 +259,22 @@ End Toks5.
 End Run5.
 
 (* ---- 4. the preamble address code (+ tab offset) of a non-italic row on a buffer without italics ------------------- *)
+(* the first preamble address code of an EMPTY buffer resets the tracker first: stated, as in stage 3, for a buffer that
+   is not empty or a tracker already in its reset form (pac_ready) *)
+Lemma up_pac5 : forall tk nodes sty p pos, tab_of p = None -> pac_pos p = Some pos -> pac_ready tk nodes ->
+  update_positioning tk (mkCr nodes sty) p = tracker_update tk pos.
+Proof.
+  intros tk nodes sty p pos Ht Hp [Hn|Hr].
+  - apply up_pac; assumption.
+  - rewrite (up_pac_gen _ _ _ _ Ht Hp). cbn [cr_nodes]. destruct nodes; [rewrite Hr|]; reflexivity.
+Qed.
+
 Lemma interp_pac5 : forall tk nodes sty w n pos, ctlfree w -> memz w scc_style_setting_commands = true ->
-  memz w scc_italics_commands = false -> sty <> SOn -> tab_of w = None -> pac_pos w = Some pos ->
+  memz w scc_italics_commands = false -> sty <> SOn -> tab_of w = None -> pac_pos w = Some pos -> pac_ready tk nodes ->
   interpret_command tk (mkCr nodes sty) w n = (tracker_update tk pos, mkCr nodes sty, None).
 Proof.
-  intros tk nodes sty w n pos C Hst Hit Hsty Ht Hp. unfold interpret_command. cbv zeta.
-  rewrite (up_pac _ _ _ _ Ht Hp), (cf_bs _ C), (cf_bg _ C), Hst, Hit, (cf_mid _ C). cbn [cr_style cr_nodes andb].
+  intros tk nodes sty w n pos C Hst Hit Hsty Ht Hp Hrd. unfold interpret_command. cbv zeta.
+  rewrite (up_pac5 _ _ _ _ _ Ht Hp Hrd), (cf_bs _ C), (cf_bg _ C), Hst, Hit, (cf_mid _ C). cbn [cr_style cr_nodes andb].
   destruct sty; try congruence; cbn [cr_style cr_nodes]; destruct (prev_text nodes) as [[x y]|]; reflexivity.
 Qed.
 
@@ -278,13 +288,13 @@ Hypothesis Hsty : sty <> SOn.
 Notation RS := (RS st d sty pa ro q tm tc off).
 
 Lemma pac_unit_run5 : forall r tk l nodes fr nx, rich_row r = true -> has_break_before nodes = false ->
-  last_contains l (pac_word (rw_row r) (pac_attr r)) = false ->
+  last_contains l (pac_word (rw_row r) (pac_attr r)) = false -> pac_ready tk nodes ->
   exists l', tws (RS tk l nodes fr) (pac_unit d r) nx
              = RS (tab_upd (rw_tab r) (tracker_update tk (rw_row r, rw_indent r))) l' nodes
                   (fr + Z.of_nat (length (pac_unit d r)))
              /\ linv l' None.
 Proof.
-  intros r tk l nodes fr nx Hrich Hbb Hl. destruct (rich_row_gen r Hrich) as [Hrow Hital].
+  intros r tk l nodes fr nx Hrich Hbb Hl Hrd. destruct (rich_row_gen r Hrich) as [Hrow Hital].
   set (p := pac_word (rw_row r) (pac_attr r)) in *. set (t := tab_word (rw_tab r)).
   destruct (rich_facts r Hrow) as (_ & _ & Hk & _).
   destruct (pac_row_facts2 r Hrow) as (Hp & Hpac & Ht & C & Hst & Hit). fold p in Hp, Hpac, Ht, C, Hst, Hit.
@@ -294,7 +304,7 @@ Proof.
   { intros l0 fr0 n Hl0. unfold SccPoponStage5.RS.
     apply (tw_cmd _ _ _ _ _ _ _ _ _ _ _ _ p n (LWord p) _ _ (cf_cp _ C) (cf_ctl _ C)
              (hd_pac _ _ _ _ _ _ _ _ _ _ _ _ _ Hpac Hl0)).
-    exact (interp_pac5 tk nodes sty p n _ C Hst Hit Hsty Ht Hp). }
+    exact (interp_pac5 tk nodes sty p n _ C Hst Hit Hsty Ht Hp Hrd). }
   assert (Sagain : forall tk0 l0 fr0 n, last_contains l0 p = true ->
             translate_word (RS tk0 l0 nodes fr0) p n = RS tk0 LNone nodes (fr0 + 1)).
   { intros tk0 l0 fr0 n Hl0. unfold SccPoponStage5.RS.
@@ -330,7 +340,7 @@ Qed.
 
 (* ---- 5. one row ------------------------------------------------------------------------------------------------------- *)
 Lemma row_run5 : forall r tk l nodes fr nx tk0 tk1 pre p, rich_row r = true -> has_break_before nodes = false ->
-  last_contains l (pac_word (rw_row r) (pac_attr r)) = false ->
+  last_contains l (pac_word (rw_row r) (pac_attr r)) = false -> pac_ready tk nodes ->
   tab_upd (rw_tab r) (tracker_update tk (rw_row r, rw_indent r)) = tk0 ->
   (forall s, add_chars tk0 (mkCr nodes sty) s = (tk1, mkCr (pre ++ [mkI IText s p]) sty)) ->
   (forall txt s, add_chars tk1 (mkCr (pre ++ [mkI IText txt p]) sty) s = (tk1, mkCr (pre ++ [mkI IText (txt ++ s) p]) sty)) ->
@@ -338,14 +348,14 @@ Lemma row_run5 : forall r tk l nodes fr nx tk0 tk1 pre p, rich_row r = true -> h
              = RS tk1 l' (pre ++ [mkI IText (rich_text r) p]) (fr + Z.of_nat (length (emit_row d r)))
              /\ rowlast l' /\ last_is l' w_eoc = false.
 Proof.
-  intros r tk l nodes fr nx tk0 tk1 pre p Hrich Hbb Hl Etk H0 H1. destruct (rich_row_gen r Hrich) as [Hrow Hital].
+  intros r tk l nodes fr nx tk0 tk1 pre p Hrich Hbb Hl Hrd Etk H0 H1. destruct (rich_row_gen r Hrich) as [Hrow Hital].
   destruct (rich_facts r Hrow) as (_ & _ & _ & _ & _ & Hok & Hsem & _ & _ & Hne & _).
   assert (Hrow' := Hrow). unfold rich_row_any in Hrow'. apply andb_true_iff in Hrow'. destruct Hrow' as [Hrok Hb].
   destruct (row_ok_parts r Hrok) as (_ & _ & _ & Hio & _).
   pose proof (items_bsok (rw_items r) None [] Hio Hb (fun X : prev_char None => match X with end)) as Hbs.
   unfold emit_row. rewrite (pack_apack d _ None Hb), tws_app, app_length, Nat2Z.inj_add.
   set (toks := apack d (flat_map atoks_of_item (rw_items r)) None) in *.
-  destruct (pac_unit_run5 r tk l nodes fr (nxt toks nx) Hrich Hbb Hl) as (l1 & E1 & Hl1).
+  destruct (pac_unit_run5 r tk l nodes fr (nxt toks nx) Hrich Hbb Hl Hrd) as (l1 & E1 & Hl1).
   rewrite E1, Etk.
   destruct (proj1 (atoks_run5 st d sty pa ro q tm tc off tk0 tk1 nodes pre p H0 H1 nx (flat_map atoks_of_item (rw_items r)))
               [] None tk0 l1 nodes (fr + Z.of_nat (length (pac_unit d r))) Hok Hbs (or_introl (conj eq_refl (conj eq_refl eq_refl))) Hl1)
@@ -425,7 +435,7 @@ Proof.
                   (nxt (flat_map (emit_row d) t) nx)
                   (mkTk ((cur :: ps) ++ [(lastrow + 1, c0)]) (Some (rw_indent r)) false (lastrow + 1, rw_indent r + rw_tab r))
                   (mkTk ((cur :: ps) ++ [(lastrow + 1, c0)]) None false (lastrow + 1, rw_indent r + rw_tab r))
-                  (pre ++ [mkI IText txt cur; mkI IBreak [] cur]) cur Hrich Hbb Hlc) as (l1 & E1 & Hl1 & Hle1).
+                  (pre ++ [mkI IText txt cur; mkI IBreak [] cur]) cur Hrich Hbb Hlc (pac_ready_nonempty _ _ _)) as (l1 & E1 & Hl1 & Hle1).
       * rewrite Eadj. apply tracker_adj; [exact Hlast|lia].
       * intros s. apply add_chars_break5.
       * intros txt0 s. apply add_chars_plain5.
@@ -440,7 +450,8 @@ Proof.
       destruct (row_run5 r (mkTk (cur :: ps) None false dflt) l (pre ++ [mkI IText txt cur]) fr
                   (nxt (flat_map (emit_row d) t) nx)
                   (mkTk [row_pos r] None true (row_pos r)) (mkTk [row_pos r] None false (row_pos r))
-                  (pre ++ [mkI IText txt cur; mkI IText [] (row_pos r); mkI IRepos [] (row_pos r)]) (row_pos r) Hrich Hbb Hlc)
+                  (pre ++ [mkI IText txt cur; mkI IText [] (row_pos r); mkI IRepos [] (row_pos r)]) (row_pos r) Hrich Hbb Hlc
+                  (pac_ready_nonempty _ _ _))
         as (l1 & E1 & Hl1 & Hle1).
       * unfold row_pos. apply (tracker_far _ lastrow c0); [exact Hlast|lia|exact Hne|exact Nadj].
       * intros s. apply add_chars_repos5.
@@ -465,7 +476,7 @@ Lemma rich_load_parts : forall l, rich_load l = true ->
 Proof.
   intros l H. unfold rich_load in H. apply andb_true_iff in H. destruct H as [Hw Hb].
   destruct l as [|r t]; [discriminate Hw|]. exists r, t. unfold load_wf in Hw.
-  apply andb_true_iff in Hw. destruct Hw as [Hw _]. apply andb_true_iff in Hw. destruct Hw as [_ Hd].
+  apply andb_true_iff in Hw. destruct Hw as [_ Hd].
   rewrite forallb_cons in Hb. apply andb_true_iff in Hb. destruct Hb as [Hr Ht].
   split; [reflexivity|split; [exact Hr|split]].
   - apply Forall_forall. intros x Hx. exact (proj1 (forallb_forall _ _) Ht x Hx).
@@ -502,7 +513,7 @@ Proof.
   destruct (row_run5 stash0 d SNone creator0 creator0 None 0%Q tc off snone_not_on r tracker0 l0 [] (if d then 4 else 2)
               (nxt (flat_map (emit_row d) rest ++ ctl d (ctrl_word 47)) nx)
               (mkTk [row_pos r] None false (row_pos r)) (mkTk [row_pos r] None false (row_pos r)) [] (row_pos r)
-              Hrich eq_refl Hc0) as (l1 & E1 & Hl1 & Hle1).
+              Hrich eq_refl Hc0 (pac_ready_reset _ _ _ eq_refl)) as (l1 & E1 & Hl1 & Hle1).
   { unfold tracker0, row_pos. apply tracker_new. lia. }
   { intros s. apply add_chars_first5. }
   { intros txt s. apply (add_chars_plain5 SNone (row_pos r) [] (row_pos r) []). }
@@ -704,12 +715,12 @@ Definition pac_style (it : bool) (sty : istyle) (t : tracker) (nodes : list inod
     end.
 
 Lemma interp_pac5b : forall tk nodes sty w n pos it tk' c', ctlfree w -> memz w scc_style_setting_commands = true ->
-  memz w scc_italics_commands = it -> tab_of w = None -> pac_pos w = Some pos ->
+  memz w scc_italics_commands = it -> tab_of w = None -> pac_pos w = Some pos -> pac_ready tk nodes ->
   pac_style it sty (tracker_update tk pos) nodes = (tk', c') ->
   interpret_command tk (mkCr nodes sty) w n = (tk', c', None).
 Proof.
-  intros tk nodes sty w n pos it tk' c' C Hst Hit Ht Hp Hps. unfold interpret_command. cbv zeta.
-  rewrite (up_pac _ _ _ _ Ht Hp), (cf_bs _ C), (cf_bg _ C), Hst, Hit, (cf_mid _ C). cbn [cr_style cr_nodes andb].
+  intros tk nodes sty w n pos it tk' c' C Hst Hit Ht Hp Hrd Hps. unfold interpret_command. cbv zeta.
+  rewrite (up_pac5 _ _ _ _ _ Ht Hp Hrd), (cf_bs _ C), (cf_bg _ C), Hst, Hit, (cf_mid _ C). cbn [cr_style cr_nodes andb].
   unfold pac_style in Hps. cbv zeta in Hps.
   destruct it; destruct sty; try destruct (break_required (tracker_update tk pos)); injection Hps as <- <-;
     cbn [cr_style cr_nodes]; match goal with |- context [prev_text ?x] => destruct (prev_text x) as [[? ?]|] end; reflexivity.
@@ -766,12 +777,12 @@ Notation RS5b sty := (RS st d sty pa ro q tm tc off).
 
 Lemma pac_unit_run5b : forall r sty tk l nodes fr nx tk' nodes' sty', rich_row_any r = true ->
   pac_style (rw_ital r) sty (tracker_update tk (rw_row r, rw_indent r)) nodes = (tk', mkCr nodes' sty') ->
-  last_contains l (pac_word (rw_row r) (pac_attr r)) = false ->
+  last_contains l (pac_word (rw_row r) (pac_attr r)) = false -> pac_ready tk nodes ->
   exists l', tws (RS5b sty tk l nodes fr) (pac_unit d r) nx
              = RS5b sty' (tab_eff (rw_tab r) nodes' tk') l' nodes' (fr + Z.of_nat (length (pac_unit d r)))
              /\ linv l' None.
 Proof.
-  intros r sty tk l nodes fr nx tk' nodes' sty' Hrow Hps Hl.
+  intros r sty tk l nodes fr nx tk' nodes' sty' Hrow Hps Hl Hrd.
   set (p := pac_word (rw_row r) (pac_attr r)) in *. set (t := tab_word (rw_tab r)).
   destruct (rich_facts r Hrow) as (_ & _ & Hk & _).
   destruct (pac_row_facts2 r Hrow) as (Hp & Hpac & Ht & C & Hst & Hit). fold p in Hp, Hpac, Ht, C, Hst, Hit.
@@ -780,7 +791,7 @@ Proof.
   { intros l0 fr0 n Hl0. unfold RS.
     apply (tw_cmd _ _ _ _ _ _ _ _ _ _ _ _ p n (LWord p) _ _ (cf_cp _ C) (cf_ctl _ C)
              (hd_pac _ _ _ _ _ _ _ _ _ _ _ _ _ Hpac Hl0)).
-    exact (interp_pac5b tk nodes sty p n _ _ _ _ C Hst Hit Ht Hp Hps). }
+    exact (interp_pac5b tk nodes sty p n _ _ _ _ C Hst Hit Ht Hp Hrd Hps). }
   assert (Sagain : forall tk0 l0 fr0 n, last_contains l0 p = true ->
             translate_word (RS5b sty' tk0 l0 nodes' fr0) p n = RS5b sty' tk0 LNone nodes' (fr0 + 1)).
   { intros tk0 l0 fr0 n Hl0. unfold RS.
@@ -818,7 +829,7 @@ Qed.
 
 Lemma row_run5b : forall r sty tk l nodes fr nx tk' nodes' sty' tk0 tk1 pre p, rich_row_any r = true ->
   pac_style (rw_ital r) sty (tracker_update tk (rw_row r, rw_indent r)) nodes = (tk', mkCr nodes' sty') ->
-  last_contains l (pac_word (rw_row r) (pac_attr r)) = false ->
+  last_contains l (pac_word (rw_row r) (pac_attr r)) = false -> pac_ready tk nodes ->
   tab_eff (rw_tab r) nodes' tk' = tk0 ->
   (forall s, add_chars tk0 (mkCr nodes' sty') s = (tk1, mkCr (pre ++ [mkI IText s p]) sty')) ->
   (forall txt s, add_chars tk1 (mkCr (pre ++ [mkI IText txt p]) sty') s = (tk1, mkCr (pre ++ [mkI IText (txt ++ s) p]) sty')) ->
@@ -826,14 +837,14 @@ Lemma row_run5b : forall r sty tk l nodes fr nx tk' nodes' sty' tk0 tk1 pre p, r
              = RS5b sty' tk1 l' (pre ++ [mkI IText (rich_text r) p]) (fr + Z.of_nat (length (emit_row d r)))
              /\ rowlast l' /\ last_is l' w_eoc = false.
 Proof.
-  intros r sty tk l nodes fr nx tk' nodes' sty' tk0 tk1 pre p Hrow Hps Hl Etk H0 H1.
+  intros r sty tk l nodes fr nx tk' nodes' sty' tk0 tk1 pre p Hrow Hps Hl Hrd Etk H0 H1.
   destruct (rich_facts r Hrow) as (_ & _ & _ & _ & _ & Hok & Hsem & _ & _ & Hne & _).
   assert (Hrow' := Hrow). unfold rich_row_any in Hrow'. apply andb_true_iff in Hrow'. destruct Hrow' as [Hrok Hb].
   destruct (row_ok_parts r Hrok) as (_ & _ & _ & Hio & _).
   pose proof (items_bsok (rw_items r) None [] Hio Hb (fun X : prev_char None => match X with end)) as Hbs.
   unfold emit_row. rewrite (pack_apack d _ None Hb), tws_app, app_length, Nat2Z.inj_add.
   set (toks := apack d (flat_map atoks_of_item (rw_items r)) None) in *.
-  destruct (pac_unit_run5b r sty tk l nodes fr (nxt toks nx) tk' nodes' sty' Hrow Hps Hl) as (l1 & E1 & Hl1).
+  destruct (pac_unit_run5b r sty tk l nodes fr (nxt toks nx) tk' nodes' sty' Hrow Hps Hl Hrd) as (l1 & E1 & Hl1).
   rewrite E1, Etk.
   destruct (proj1 (atoks_run5 st d sty' pa ro q tm tc off tk0 tk1 nodes' pre p H0 H1 nx (flat_map atoks_of_item (rw_items r)))
               [] None tk0 l1 nodes' (fr + Z.of_nat (length (pac_unit d r))) Hok Hbs (or_introl (conj eq_refl (conj eq_refl eq_refl))) Hl1)
@@ -961,6 +972,7 @@ Proof.
         { exact Hrow. }
         { rewrite Etk, Hit. reflexivity. }
         { exact Hlc. }
+        { apply pac_ready_nonempty. }
         { unfold tab_eff. rewrite hbb_break_on. reflexivity. }
         { intros s. cbn [ack_break app tk_pos tk_repos tk_default]. apply add_chars_fresh. reflexivity. }
         { intros txt0 s. apply add_chars_plain5. }
@@ -970,6 +982,7 @@ Proof.
         { exact Hrow. }
         { rewrite Etk, Hit. reflexivity. }
         { exact Hlc. }
+        { apply pac_ready_nonempty. }
         { unfold tab_eff. rewrite hbb_text. apply (tab_adj (cur :: ps)). exact Hk. }
         { intros s. cbn [app]. apply add_chars_break5. }
         { intros txt0 s. apply add_chars_plain5. }
@@ -979,6 +992,7 @@ Proof.
         { exact Hrow. }
         { rewrite Etk, Hit. reflexivity. }
         { exact Hlc. }
+        { apply pac_ready_nonempty. }
         { unfold tab_eff. rewrite hbb_break_on. reflexivity. }
         { intros s. cbn [ack_break app tk_pos tk_repos tk_default]. apply add_chars_fresh. reflexivity. }
         { intros txt0 s. apply add_chars_plain5. }
@@ -988,6 +1002,7 @@ Proof.
         { exact Hrow. }
         { rewrite Etk, Hit. reflexivity. }
         { exact Hlc. }
+        { apply pac_ready_nonempty. }
         { unfold tab_eff. rewrite hbb_text. apply (tab_adj (cur :: ps)). exact Hk. }
         { intros s. cbn [app]. apply add_chars_break5. }
         { intros txt0 s. apply add_chars_plain5. }
@@ -997,6 +1012,7 @@ Proof.
         { exact Hrow. }
         { rewrite Etk, Hit. reflexivity. }
         { exact Hlc. }
+        { apply pac_ready_nonempty. }
         { unfold tab_eff. rewrite hbb_break. reflexivity. }
         { intros s. cbn [ack_break app tk_pos tk_repos tk_default]. apply add_chars_fresh. reflexivity. }
         { intros txt0 s. apply add_chars_plain5. }
@@ -1006,6 +1022,7 @@ Proof.
         { exact Hrow. }
         { rewrite Etk, Hit. reflexivity. }
         { exact Hlc. }
+        { apply pac_ready_nonempty. }
         { unfold tab_eff. rewrite hbb_text. apply (tab_adj (cur :: ps)). exact Hk. }
         { intros s. cbn [app]. apply add_chars_break5. }
         { intros txt0 s. apply add_chars_plain5. }
@@ -1039,6 +1056,7 @@ Proof.
         { exact Hrow. }
         { rewrite Etk, Hit. reflexivity. }
         { exact Hlc. }
+        { apply pac_ready_nonempty. }
         { unfold tab_eff. cbn [current_position tk_pos]. rewrite hbb_text_style by reflexivity. apply tab_far. exact Hk. }
         { intros s. apply add_chars_fresh_repos. reflexivity. }
         { intros txt0 s. apply add_chars_plain5. }
@@ -1048,6 +1066,7 @@ Proof.
         { exact Hrow. }
         { rewrite Etk, Hit. reflexivity. }
         { exact Hlc. }
+        { apply pac_ready_nonempty. }
         { unfold tab_eff. rewrite hbb_text. apply tab_far. exact Hk. }
         { intros s. apply add_chars_repos5. }
         { intros txt0 s. apply add_chars_plain5. }
@@ -1057,6 +1076,7 @@ Proof.
         { exact Hrow. }
         { rewrite Etk, Hit. reflexivity. }
         { exact Hlc. }
+        { apply pac_ready_nonempty. }
         { unfold tab_eff. cbn [current_position tk_pos]. rewrite hbb_text_style by reflexivity. apply tab_far. exact Hk. }
         { intros s. apply add_chars_fresh_repos. reflexivity. }
         { intros txt0 s. apply add_chars_plain5. }
@@ -1066,6 +1086,7 @@ Proof.
         { exact Hrow. }
         { rewrite Etk, Hit. reflexivity. }
         { exact Hlc. }
+        { apply pac_ready_nonempty. }
         { unfold tab_eff. rewrite hbb_text. apply tab_far. exact Hk. }
         { intros s. apply add_chars_repos5. }
         { intros txt0 s. apply add_chars_plain5. }
@@ -1075,6 +1096,7 @@ Proof.
         { exact Hrow. }
         { rewrite Etk, Hit. reflexivity. }
         { exact Hlc. }
+        { apply pac_ready_nonempty. }
         { unfold tab_eff. cbn [current_position tk_pos]. rewrite hbb_text_style by reflexivity. apply tab_far. exact Hk. }
         { intros s. apply add_chars_fresh_repos. reflexivity. }
         { intros txt0 s. apply add_chars_plain5. }
@@ -1084,6 +1106,7 @@ Proof.
         { exact Hrow. }
         { rewrite Etk, Hit. reflexivity. }
         { exact Hlc. }
+        { apply pac_ready_nonempty. }
         { unfold tab_eff. rewrite hbb_text. apply tab_far. exact Hk. }
         { intros s. apply add_chars_repos5. }
         { intros txt0 s. apply add_chars_plain5. }
@@ -1103,7 +1126,7 @@ Lemma rich_load_any_parts : forall l, rich_load_any l = true ->
 Proof.
   intros l H. unfold rich_load_any in H. apply andb_true_iff in H. destruct H as [Hw Hb].
   destruct l as [|r t]; [discriminate Hw|]. exists r, t. unfold load_wf in Hw.
-  apply andb_true_iff in Hw. destruct Hw as [Hw _]. apply andb_true_iff in Hw. destruct Hw as [_ Hd].
+  apply andb_true_iff in Hw. destruct Hw as [_ Hd].
   rewrite forallb_cons in Hb. apply andb_true_iff in Hb. destruct Hb as [Hr Ht].
   split; [reflexivity|split; [exact Hr|split]].
   - apply Forall_forall. intros x Hx. exact (proj1 (forallb_forall _ _) Ht x Hx).
@@ -1144,6 +1167,7 @@ Proof.
       { exact Hrow. }
       { rewrite tracker_first, Hit. reflexivity. }
       { exact Hc0. }
+      { apply pac_ready_reset. reflexivity. }
       { unfold tab_eff. cbn [app has_break_before rev has_break_before_rev is_text is_break i_kind current_position tk_pos].
         rewrite <- (tracker_first (14, 0)). apply tracker_new. exact Hk. }
       { intros s. apply (add_chars_fresh (row_pos r) [] (row_pos r) SOn []). reflexivity. }
@@ -1154,6 +1178,7 @@ Proof.
       { exact Hrow. }
       { rewrite tracker_first, Hit. reflexivity. }
       { exact Hc0. }
+      { apply pac_ready_reset. reflexivity. }
       { unfold tab_eff. cbn [has_break_before rev has_break_before_rev].
         rewrite <- (tracker_first (14, 0)). apply tracker_new. exact Hk. }
       { intros s. apply add_chars_first5. }
